@@ -13,7 +13,7 @@ def make_cases(rng, tier, n):
             c["ops"] = [("run", False, [])]
             pipe = True
         else:
-            c = gen.basic_project(rng, "se-%d" % i, tier, stats=stats)
+            c = gen.basic_project(rng, "se-%d" % i, tier, stats=stats, dir_inputs=True)
             c["ops"] = []
             pipe = False
         names = [sp for sp, st in c["stages"]]
